@@ -32,7 +32,7 @@ def run(ctx):
         g = "g%d" % gi
         groups.append((g, repl, gi < len(ORDERED)))
         ps = PROGRAMS + [SC.gen_program(ctx.rng, SC.VOC_FULL, keys=5) for _ in range(n)]
-        jobs += make_jobs(ctx, drv, vs, ps, group_of=lambda v, g=g: g)
+        jobs += make_jobs(ctx, drv, vs, ps, group_of=lambda v, g=g: g, strat=[("dfs", 700, 1), ("pct", 70, 0), ("random", 40, 0)] if q else None)
         jobs += make_jobs(ctx, drv, vs, SEQ, group_of=lambda v, g=g: g, strat=[("seq", 1, 0)])
     vlib.run_jobs(ctx, jobs)
     for g, repl, ordered in groups:
